@@ -4,7 +4,8 @@
    error-kind table / severities / sort keys: Gen/ErrorCodes.v, regenerated from the
    sources on every run. *)
 From Coq Require Import List NArith ZArith Sorting Permutation.
-From HV Require Import Base.Res Base.Str Base.IssueTypes Gen.ErrorCodes Model.Issues Proofs.IssuesProofs.
+From HV Require Import Base.Res Base.Str Base.IssueTypes Gen.ErrorCodes Model.Issues Proofs.IssuesProofs
+                       Model.IssuePaths Proofs.IssuePathsProofs.
 Import ListNotations.
 
 (* ---- clause 1: every issue has a code, a message and a severity ----------------- *)
@@ -269,3 +270,151 @@ Proof. exact nonvacuous_pipeline. Qed.
 
 Example C12_export_needed : json_ok (PList (map issue_py w_basic)) = false.
 Proof. exact export_needed. Qed.
+
+(* ==================================================================================== *)
+(* The file-level entry points: decoration paths of SidecarValidator.validate and       *)
+(* SpreadsheetValidator.validate (Model/IssuePaths.v), for ALL abstract per-string       *)
+(* results, structural events, handlers and context stacks.                              *)
+(* ==================================================================================== *)
+
+(* ---- every issue is complete ------------------------------------------------------- *)
+Theorem C12_sidecar_complete : forall fixed sort_early h0 inp,
+  sc_raw_all issue_ok inp -> sc_events_all event_ok inp ->
+  all_ok issue_ok (sidecar_validate fixed sort_early h0 inp).
+Proof. exact sidecar_complete. Qed.
+Print Assumptions C12_sidecar_complete.
+
+Theorem C12_table_complete : forall gate fixed h0 inp,
+  tb_raw_all issue_ok inp -> tb_events_all event_ok inp ->
+  all_ok issue_ok (table_validate_gen gate fixed h0 inp).
+Proof. exact table_complete. Qed.
+Print Assumptions C12_table_complete.
+
+(* ---- the suffix appears once along these paths -------------------------------------- *)
+Theorem C12_sidecar_suffix_once : forall sort_early h0 inp,
+  sc_raw_all suffix_inv inp -> all_ok suffix_inv (sidecar_validate true sort_early h0 inp).
+Proof. exact sidecar_suffix_once. Qed.
+Print Assumptions C12_sidecar_suffix_once.
+
+Theorem C12_table_suffix_once : forall gate h0 inp,
+  tb_raw_all suffix_inv inp -> all_ok suffix_inv (table_validate_gen gate true h0 inp).
+Proof. exact table_suffix_once. Qed.
+Print Assumptions C12_table_suffix_once.
+
+(* ---- offsets lie inside the text of the HED-string context the issue carries -------- *)
+Theorem C12_sidecar_offsets_inside : forall sort_early h0 inp,
+  hed_of h0 = None ->
+  Forall (fun c => Forall (fun s => Forall ev_no_tag (rfs_events s)) (rfc_strs c)) (si_refs inp) ->
+  Forall loc_ok (si_defs inp) ->
+  sc_strings_wf (si_cols inp) ->
+  all_ok char_in_ctx (sidecar_validate true sort_early h0 inp).
+Proof. exact sidecar_offsets_inside. Qed.
+Print Assumptions C12_sidecar_offsets_inside.
+
+Theorem C12_table_offsets_inside : forall gate h0 inp,
+  hed_of h0 = None ->
+  Forall loc_ok (ti_mapping inp) ->
+  tb_rows_wf inp ->
+  all_ok char_in_ctx (table_validate_gen gate true h0 inp).
+Proof. exact table_offsets_inside. Qed.
+Print Assumptions C12_table_offsets_inside.
+
+(* row strings (from_hed_strings): the well-formedness the table theorem asks of a row string
+   follows from the part-local one *)
+Theorem C12_from_strings_span_inside : forall pre p post id a b,
+  Forall (fun q => in_original q id = false) pre -> in_original p id = true ->
+  a <= b -> b <= length (hs_text p) ->
+  exists s e, get_org_span_from_strings (pre ++ p :: post) 0 id a b = Some (s, e) /\
+    s <= e /\ e <= length (join [ch_comma] (map hs_text (pre ++ p :: post))) /\
+    sub (join [ch_comma] (map hs_text (pre ++ p :: post))) s e = sub (hs_text p) a b.
+Proof. exact from_strings_span_inside. Qed.
+Print Assumptions C12_from_strings_span_inside.
+
+(* ---- errors only = error subset of the run with warnings ---------------------------- *)
+(* sidecar: structural kinds are registered ones at their default severity; the definition
+   issues, appended without passing the handler's filter, must all be errors *)
+Theorem C12_sidecar_errors_only : forall fixed sort_early h0 inp out,
+  sc_events_all event_ok inp ->
+  Forall (fun i => is_error i = true) (si_defs inp) ->
+  sidecar_validate fixed sort_early (with_warn h0 true) inp = Ok out ->
+  sidecar_validate fixed sort_early (with_warn h0 false) inp = Ok (filter is_error out).
+Proof. exact sidecar_errors_only. Qed.
+Print Assumptions C12_sidecar_errors_only.
+
+(* table: for EVERY test that _run_checks could apply to new_column_issues, provided it gives the
+   same verdict on a list and on its error subset *)
+Theorem C12_table_errors_only_gen : forall gate fixed h0 inp out,
+  gate_respects_filter gate ->
+  tb_events_all event_ok inp ->
+  Forall (fun r => Forall (fun c => Forall sev_std (tbc_basic c)) (tr_cells r)) (ti_rows inp) ->
+  table_validate_gen gate fixed (with_warn h0 true) inp = Ok out ->
+  table_validate_gen gate fixed (with_warn h0 false) inp = Ok (filter is_error out).
+Proof. exact table_errors_only_gen. Qed.
+Print Assumptions C12_table_errors_only_gen.
+
+Theorem C12_check_for_any_errors_respects : gate_respects_filter check_for_any_errors.
+Proof. exact check_for_any_errors_respects. Qed.
+Print Assumptions C12_check_for_any_errors_respects.
+
+(* the code as it is (gate = check_for_any_errors) *)
+Theorem C12_table_errors_only : forall fixed h0 inp out,
+  tb_events_all event_ok inp ->
+  Forall (fun r => Forall (fun c => Forall sev_std (tbc_basic c)) (tr_cells r)) (ti_rows inp) ->
+  table_validate fixed (with_warn h0 true) inp = Ok out ->
+  table_validate fixed (with_warn h0 false) inp = Ok (filter is_error out).
+Proof. exact table_errors_only. Qed.
+Print Assumptions C12_table_errors_only.
+
+(* why it must be a test for errors: with "if new_column_issues:" a surviving WARNING makes the row
+   skip its row-level checks and the errors-only run reports an error the other run lacks *)
+Theorem C12_gate_nonempty_not_respecting : ~ gate_respects_filter gate_nonempty.
+Proof. exact gate_nonempty_not_respecting. Qed.
+Print Assumptions C12_gate_nonempty_not_respecting.
+
+Theorem C12_table_errors_only_nonempty_gate_refuted :
+  exists out_on out_off,
+    table_validate_gen gate_nonempty true (with_warn wt_handler true) wt_input = Ok out_on /\
+    table_validate_gen gate_nonempty true (with_warn wt_handler false) wt_input = Ok out_off /\
+    map i_sev out_on = [sev_warning] /\ map i_sev out_off = [sev_error] /\
+    out_off <> filter is_error out_on.
+Proof. exact table_errors_only_nonempty_gate_refuted. Qed.
+Print Assumptions C12_table_errors_only_nonempty_gate_refuted.
+
+(* ---- output order ---------------------------------------------------------------------- *)
+Theorem C12_table_output_sorted : forall gate fixed h0 inp out,
+  table_validate_gen gate fixed h0 inp = Ok out ->
+  StronglySorted (fun a b => issue_leb false a b = true) out.
+Proof. exact table_output_sorted. Qed.
+Print Assumptions C12_table_output_sorted.
+
+(* the sidecar path returns a sorted list, except on its early return (structure / reference error) *)
+Theorem C12_sidecar_output_sorted : forall fixed sort_early h0 inp out,
+  sidecar_validate fixed sort_early h0 inp = Ok out ->
+  StronglySorted (fun a b => issue_leb false a b = true) out \/
+  (sort_early = false /\
+   exists issues, cat (validate_structure fixed (push_error_context h0 CFile (si_name inp)) (si_struct inp))
+                      (validate_refs fixed (push_error_context h0 CFile (si_name inp)) (si_refs inp) (si_nested inp))
+                  = Ok issues /\ check_for_any_errors issues = true /\ out = issues).
+Proof. exact sidecar_output_sorted. Qed.
+Print Assumptions C12_sidecar_output_sorted.
+
+(* FULL statement, true of the model with "return sort_issues(issues)" on the early return *)
+Theorem C12_sidecar_output_sorted_fixed : forall fixed h0 inp out,
+  sidecar_validate fixed true h0 inp = Ok out ->
+  StronglySorted (fun a b => issue_leb false a b = true) out.
+Proof. exact sidecar_output_sorted_fixed. Qed.
+Print Assumptions C12_sidecar_output_sorted_fixed.
+
+(* ... and FALSE of the code as it is (finding C12-F2): column "b" is returned before column "a" *)
+Theorem C12_sidecar_early_return_unsorted_refuted :
+  exists out, sidecar_validate true false wt_handler ws_input = Ok out /\
+    map (key_at CSidecarCol) out = [KS [98]%N; KS [97]%N] /\
+    ~ StronglySorted (fun a b => issue_leb false a b = true) out.
+Proof. exact sidecar_early_return_unsorted_refuted. Qed.
+Print Assumptions C12_sidecar_early_return_unsorted_refuted.
+
+Example C12_table_errors_only_witness_ok :
+  exists out, table_validate true (with_warn wt_handler true) wt_input = Ok out /\
+    map i_sev out = [sev_error; sev_warning] /\
+    table_validate true (with_warn wt_handler false) wt_input = Ok (filter is_error out).
+Proof. exact table_errors_only_witness_ok. Qed.
